@@ -123,6 +123,9 @@ BOUNDS = {
         "line2": "coding comment on line 2 ('##' or '#', LF / CRLF) below a '#'-text, '##'-comment, blank or plain-text first line, with input_encoding (comment names another codec) and without (comment names the true codec) x codecs utf-8, koi8-r, shift_jis, latin-1, utf-8+BOM x text carrier x 4 strings x 5 paths x 2 plain outputs",
         "tseq": "every sequence of 2 steps over 9 steps (render / render_unicode / get_def().render; succeeding, raising part way, not encodable) on ONE Template object x 6 output configurations x {Template, TemplateLookup collection}: 972",
         "outenc": "5 template shapes (one write, text+expr, loop, def call, inheritance) x 11 output encodings (utf-16/32, utf-8-sig, utf-16-le/be, utf-8, ascii, latin-1, shift_jis, iso2022_jp, utf-7) x 4 policies x 4 strings x {memory, module file}: 1760",
+        "reload": "one file re-declared between loads through one TemplateLookup: ordered pairs a,b,a of 7 declaration kinds (coding comments, BOM, UTF-8 default, lookup input_encoding, comment over input_encoding) x lookup input_encoding {none, cp1251} x module directory on/off: 100 histories",
+        "modopt": "8 option sets that add lines to the module head (future_imports, imports, strict_undefined, ...) x 5 non-UTF-8 codecs x {comment, input_encoding} x 3 bodies, first generation and re-load of the module file",
+        "outenc_nothing": "5 template shapes that write nothing / only empty strings",
         "long_comment": "first line of exactly {40,99,100,101,128,300,1100} bytes x padding after/before the coding: token x {comment, both agreeing, both conflicting, BOM contradicted} x codecs koi8-r, shift_jis, cp1252, utf-8+BOM x text carrier x 4 strings x 5 paths x 2 plain outputs",
     },
     "thorough": {
@@ -137,6 +140,7 @@ BOUNDS = {
         "nonascii_comment": "as quick + characters on both sides + agreeing input_encoding, carriers text+defattr, 6 strings, 6 paths",
         "line2": "as quick for all 11 codecs, all LF/CRLF combinations, also a shebang first line, carriers text+defattr, 6 strings, 6 paths",
         "tseq": "every sequence of 2 and 3 steps over 11 steps x 11 output configurations x {Template, TemplateLookup collection}: 31944",
+        "reload": "as quick", "modopt": "as quick",
         "outenc": "6 shapes (+ buffered def) x 24 output encodings x 7 policies x 6 strings x {memory, module file, TemplateLookup}: 16128",
     },
 }
@@ -1385,7 +1389,13 @@ OUTENC_SHAPES = {
                 lambda L: "<" + L + ">" + L + L + "</" + L + ">\n",
                 lambda L: {"base.html": "<" + L + ">${self.body()}</" + L + ">\n"}, None),
 }
-OUTENC_SHAPES_QUICK = ["one-write", "text+expr", "loop", "def-call", "inherit"]
+# nothing at all is written: render() is still render_unicode().encode(...) (bytes; the encoder's prefix for utf-16 / utf-32 / utf-8-sig)
+OUTENC_SHAPES["nothing"] = (lambda L: "", lambda L: "", None, None)
+OUTENC_SHAPES["nothing-doc"] = (lambda L: "<%doc>" + L + "</%doc>\\\n## " + L + "\n", lambda L: "", None, None)
+OUTENC_SHAPES["nothing-false-branch"] = (lambda L: "% if False:\n" + L + "\n% endif\n", lambda L: "", None, None)
+OUTENC_SHAPES["nothing-empty-writes"] = (lambda L: "<%def name=\"f()\">${''}</%def>${f()}${''}", lambda L: "", None, lambda L: "")
+OUTENC_SHAPES["nothing-from-def"] = (lambda L: "<%def name=\"f()\"></%def>" + L + "${f()}\n", lambda L: L + "\n", None, lambda L: "")
+OUTENC_SHAPES_QUICK = ["one-write", "text+expr", "loop", "def-call", "inherit", "nothing", "nothing-doc", "nothing-false-branch", "nothing-empty-writes", "nothing-from-def"]
 OUTENC_POOLS = [["é", "ß", "ñ", "ü"], ["€", "™", "…", "—"], ["中", "あ", "ソ", "日"], ["\U0001d11e", "\U0001f600", "\U00010348", "\U00020000"]]
 
 
@@ -1633,6 +1643,164 @@ def run_tseq(job, st):
 
 
 # --------------------------------------------------------------------------
+# (F) a template FILE that changes its encoding declaration between two loads through one TemplateLookup
+# (filesystem_checks on, with and without a module directory): every version must be decoded by its own declaration
+# (coding comment / BOM / the lookup's input_encoding / the UTF-8 default), whatever the previous version declared
+
+RELOAD_VERSIONS = {
+    # name -> (declaration, codec of the bytes, needs lookup input_encoding)
+    "comment-koi8-r": ("## -*- coding: koi8-r -*-\n", "koi8-r", None),
+    "comment-shift_jis": ("## -*- coding: shift_jis -*-\n", "shift_jis", None),
+    "comment-cp1251": ("## -*- coding: cp1251 -*-\n", "cp1251", None),
+    "bom": ("", "utf-8-sig", None),
+    "default-utf-8": ("", "utf-8", None),
+    "input_encoding": ("", "IE", "IE"),
+    "comment-over-input_encoding": ("## -*- coding: koi8-r -*-\n", "koi8-r", "IE"),
+}
+RELOAD_IE = [None, "cp1251"]
+RELOAD_POOL = ["\u0436", "\u0444", "\u044f", "\u0431"]
+
+
+def reload_cases(tier, seed):
+    names = list(RELOAD_VERSIONS)
+    for ie in RELOAD_IE:
+        usable = [n for n in names if (RELOAD_VERSIONS[n][2] is None or ie is not None) and not (n == "default-utf-8" and ie is not None)]
+        for mod in (False, True):
+            for a in usable:
+                for b in usable:
+                    if a != b:
+                        yield {"kind": "reload", "ie": ie, "moddir": mod, "versions": [a, b, a], "seed": seed}
+
+
+def run_reload_case(c, env, st):
+    from mako.lookup import TemplateLookup
+
+    ch = RELOAD_POOL[c["seed"] % 4]
+    env.count += 1
+    d = os.path.join(env.tdir, "rl%d" % env.count)
+    os.makedirs(d)
+    kw = {}
+    if c["ie"]:
+        kw["input_encoding"] = c["ie"]
+    if c["moddir"]:
+        kw["module_directory"] = os.path.join(d, "m")
+    lk = TemplateLookup(directories=[d], filesystem_checks=True, **kw)
+    path = os.path.join(d, "t.html")
+    base = int(time.time()) + 100
+    obs, exp = [], []
+    for i, name in enumerate(c["versions"]):
+        decl, codec, _ = RELOAD_VERSIONS[name]
+        codec = c["ie"] if codec == "IE" else codec
+        text = "v%d[%s%s]${'%s'}\n" % (i, ch, ch, ch)
+        with open(path, "wb") as f:
+            f.write((decl + text).encode(codec))
+        os.utime(path, (base + 10 * i, base + 10 * i))  # every version at least one whole second newer than any compile
+        exp.append(("\n" if decl else "") + "v%d[%s%s]%s\n" % (i, ch, ch, ch))
+        try:
+            obs.append(lk.get_template("t.html").render_unicode())
+        except Exception as e:  # noqa
+            obs.append("%s: %s" % (type(e).__name__, str(e)[:150]))
+    exp = [e.lstrip("\n") for e in exp]
+    obs = [o.lstrip("\n") if isinstance(o, str) else o for o in obs]
+    st.states += 1
+    st.nontrivial += 1
+    st.traces += 1
+    st.evaluations += len(obs)
+    st.transitions += len(obs)
+    st.oracles["reload_decoded_by_own_declaration"] += 1
+    ok = obs == exp
+    st.outcomes[("reload", "ok" if ok else "differs")] += 1
+    if not ok:
+        i = [x == y for x, y in zip(obs, exp)].index(False)
+        sig = "reload|version %d declared by %s after one declared by %s: %s" % (
+            i, c["versions"][i].split("-")[0], c["versions"][i - 1].split("-")[0] if i else "nothing", "raises" if ": " in obs[i][:40] and "Exception" in obs[i][:40] or "Error" in obs[i][:40] else "decoded differently")
+        report(st, env, sig, dict(c, sig=sig), "reload", exp, obs)
+
+
+def run_reload(job, st):
+    env = Env()
+    for c in job["cases"]:
+        run_reload_case(c, env, st)
+    env.drop()
+    st.extra["reload_cases"] = len(job["cases"])
+
+
+# --------------------------------------------------------------------------
+# (G) Template options that add lines to the head of the generated module (future_imports, imports, a <%! %> block,
+# strict_undefined, enable_loop=False, default_filters) x non-UTF-8 sources x module-file paths: the module file must
+# still be read in the source's encoding (first generation and re-load by a new Template object)
+
+MODOPT_OPTIONS = {
+    "future_imports": {"future_imports": ["annotations"]},
+    "future_imports-2": {"future_imports": ["annotations", "generator_stop"]},
+    "imports": {"imports": ["import os", "from os import path as zpath"]},
+    "future+imports": {"future_imports": ["annotations"], "imports": ["import os"]},
+    "strict_undefined": {"strict_undefined": True},
+    "no-loop": {"enable_loop": False},
+    "default_filters": {"default_filters": ["str", "trim"]},
+    "plain": {},
+}
+MODOPT_CODECS = ["koi8-r", "cp1251", "shift_jis", "latin-1", "euc-jp"]
+MODOPT_CHARS = {"koi8-r": "\u0436\u044f", "cp1251": "\u0444\u0431", "shift_jis": "\u3042\u30bd", "latin-1": "\u00e9\u00ff", "euc-jp": "\u65e5\u672c"}
+
+
+def modopt_cases(tier, seed):
+    for codec in MODOPT_CODECS:
+        for decl in ("comment", "ie"):
+            for oname in MODOPT_OPTIONS:
+                for body in ("text", "text+module-block", "pyblock"):
+                    yield {"kind": "modopt", "codec": codec, "decl": decl, "opt": oname, "body": body}
+
+
+def run_modopt_case(c, env, st):
+    from mako.template import Template
+
+    codec, ch = c["codec"], MODOPT_CHARS[c["codec"]]
+    env.count += 1
+    fn = os.path.join(env.tdir, "mo%d.html" % env.count)
+    head = "## -*- coding: %s -*-\n" % codec if c["decl"] == "comment" else ""
+    if c["body"] == "text":
+        src, closed = "[" + ch + "]${'" + ch + "'}\n", "[" + ch + "]" + ch + "\n"
+    elif c["body"] == "text+module-block":
+        src, closed = "<%! zz = '" + ch + "' %>[" + ch + "]${zz}\n", "[" + ch + "]" + ch + "\n"
+    else:
+        src, closed = "<% zz = '" + ch + "' %>[${zz}]" + ch + "\n", "[" + ch + "]" + ch + "\n"
+    with open(fn, "wb") as f:
+        f.write((head + src).encode(codec))
+    kw = dict(MODOPT_OPTIONS[c["opt"]])
+    if c["decl"] == "ie":
+        kw["input_encoding"] = codec
+    mdir = os.path.join(env.tdir, "mom%d" % env.count)
+    obs = []
+    for attempt in ("first-generation", "reload-by-a-new-Template"):
+        try:
+            obs.append(Template(filename=fn, uri="mo%d.html" % env.count, module_directory=mdir, **kw).render_unicode())
+        except Exception as e:  # noqa
+            obs.append("%s: %s" % (type(e).__name__, str(e)[:150]))
+    st.states += 1
+    st.nontrivial += 1
+    st.traces += 1
+    st.evaluations += 2
+    st.transitions += 2
+    st.oracles["modopt_module_file_in_source_encoding"] += 1
+    exp = [closed, closed]
+    ok = obs == exp
+    st.outcomes[("modopt", c["opt"], "ok" if ok else "differs")] += 1
+    if not ok:
+        i = 0 if obs[0] != closed else 1
+        sig = "modopt|%s|%s: %s" % (c["opt"], ["first generation", "re-load"][i], "raises" if "Error" in obs[i][:40] or "Exception" in obs[i][:40] else "other text")
+        report(st, env, sig, dict(c, sig=sig), "modopt", exp, obs)
+
+
+def run_modopt(job, st):
+    env = Env()
+    for c in job["cases"]:
+        run_modopt_case(c, env, st)
+    env.drop()
+    st.extra["modopt_cases"] = len(job["cases"])
+
+
+# --------------------------------------------------------------------------
 # jobs
 
 
@@ -1673,6 +1841,12 @@ def plan(tier, seed):
     noc = 4 if tier == "quick" else 16
     for i in range(noc):
         jobs.append({"kind": "outenc", "tier": tier, "seed": seed, "cases": oc[i::noc]})
+    mc_ = list(modopt_cases(tier, seed))
+    for i in range(2):
+        jobs.append({"kind": "modopt", "tier": tier, "seed": seed, "cases": mc_[i::2]})
+    rc = list(reload_cases(tier, seed))
+    for i in range(2):
+        jobs.append({"kind": "reload", "tier": tier, "seed": seed, "cases": rc[i::2]})
     # long jobs first
     jobs.sort(key=lambda j: 0 if j["kind"] == "grid" else 1)
     return jobs
@@ -1690,6 +1864,10 @@ def run_job(job):
             run_outenc(job, st)
         elif job["kind"] == "tseq":
             run_tseq(job, st)
+        elif job["kind"] == "reload":
+            run_reload(job, st)
+        elif job["kind"] == "modopt":
+            run_modopt(job, st)
         else:
             run_neg(job, st)
     finally:
@@ -1715,6 +1893,10 @@ def replay(case):
             run_tseq_case({k: case[k] for k in ("kind", "enc", "err", "how", "steps", "seed")}, env, st)
         elif case["kind"] == "outenc":
             run_outenc_case({k: case[k] for k in ("kind", "shape", "enc", "err", "L", "how")}, env, st)
+        elif case["kind"] == "modopt":
+            run_modopt_case({k: case[k] for k in ("kind", "codec", "decl", "opt", "body")}, env, st)
+        elif case["kind"] == "reload":
+            run_reload_case({k: case[k] for k in ("kind", "ie", "moddir", "versions", "seed")}, env, st)
         elif case["kind"] == "grid":
             codec = case["codec"]
             decl = None
